@@ -372,6 +372,18 @@ pub fn run(cfg: &Cfg, rep: &mut Report) {
             if expect_err {
                 // nothing after the corruption matters; still append it to have realistic tails
             }
+            if i == at && corruption == 6 && !expect_err && t.len() > 2 && (t[0] == b'\'' || t[0] == b'"') {
+                // a byte beyond ASCII inside a quoted path name (path names hold ASCII content): foreign to the list syntax,
+                // iteration ends in an error at this entry after the entries before it
+                let mut bad = t.clone();
+                let k = 1 + rng.usize(bad.len() - 2);
+                bad[k] = 0x80 + rng.usize(128) as u8;
+                expr.extend_from_slice(&bad);
+                expect_entries.truncate(i);
+                expect_err = true;
+                cname = "non-ascii-inside-path-name";
+                continue;
+            }
             expr.extend_from_slice(t);
             if i == at && corruption == 5 && !expect_err {
                 // foreign character directly behind an entry (before the separator or the end of the list): the
